@@ -54,7 +54,9 @@ RULE = (
     "scheme specs of the C02 generator plus: dataset labels that are prefixes/substrings of one another or whose "
     "concatenations coincide (a, ab, abc, b, bc, c), non-square data, both storage orders, noisy data, linked groups with "
     "single-dataset aligned indices, and the same schemes with the global indices of some datasets stored in descending / "
-    "shuffled order; for each spec optimize(scheme) with one function evaluation is run and every array of "
+    "shuffled order, with the weight variable stored in the other dimension order than the data and the data stored as int64 / "
+    "int32 counts or float32, and schemes whose relation / scale parameters are free and optimised for 3-6 evaluations "
+    "(everything is then judged at the optimised parameter values); for each spec optimize(scheme) is run (one function evaluation unless stated) and every array of "
     "every result dataset (clp, residual, weighted_residual, fitted_data, matrix and global_matrix with their labels, "
     "coordinates) is compared with the Lean model; independently the four identities of the statement are evaluated on the result datasets alone and a relabelled "
     "twin (datasets renamed) must give the same arrays; non-trivial = some residual entry non-zero; distinct = distinct spec"
@@ -84,19 +86,27 @@ def arr(da, *dims):
     return np.asarray(da.transpose(*dims).values, dtype=float)
 
 
-def close_arr(a, b):
+def spec_rtol(spec):
+    """single precision input data are processed in single precision by numpy / LAPACK: the comparison of such a
+    scheme is made at single precision accuracy (condition numbers of the generated matrices are below 200)"""
+    return 2e-5 if any(d.get("dtype") == "float32" for d in spec["datasets"]) else RTOL
+
+
+def close_arr(a, b, rtol=None):
+    rtol = RTOL if rtol is None else rtol
     a, b = np.asarray(a, dtype=float), np.asarray(b, dtype=float)
     if a.shape != b.shape:
         return False
     if a.size == 0:
         return True
     scale = max(1.0, float(np.max(np.abs(a))), float(np.max(np.abs(b))))
-    return bool(np.all(np.abs(a - b) <= RTOL * scale))
+    return bool(np.all(np.abs(a - b) <= rtol * scale))
 
 
 def oracle(ck, spec, res, light):
     """the statement of C03 on the result datasets alone"""
     P = spec["parameters"]
+    rt = spec_rtol(spec)
     for ds in spec["datasets"]:
         label = ds["label"]
         ck.oracle_evals += 1
@@ -119,7 +129,7 @@ def oracle(ck, spec, res, light):
                 ck.violation("layout:" + name, f"{label!r}: {name} has dims {r[name].dims} shape {r[name].shape}", case)
         fitted = arr(r.fitted_data, "model", "global")
         resid = arr(r.residual, "model", "global")
-        if not close_arr(data, fitted + resid):
+        if not close_arr(data, fitted + resid, rt):
             ck.violation("data-ne-fitted-plus-residual", f"{label!r}: data != fitted_data + residual", case)
         scale = r.attrs.get("dataset_scale", 1)
         want_scale = P[ds["scale"]] if ds.get("scale") is not None else 1
@@ -136,7 +146,7 @@ def oracle(ck, spec, res, light):
             else:
                 mm = arr(mat, "model", "clp_label")
                 model_fit = mm @ c.T @ gm.T
-            if not close_arr(fitted, model_fit):
+            if not close_arr(fitted, model_fit, rt):
                 ck.violation("fitted-ne-matrix-clp:full-model", f"{label!r}: fitted_data != matrix x clp x global_matrix^T "
                              f"(shape model={M}, global={G})", case)
         else:
@@ -152,7 +162,7 @@ def oracle(ck, spec, res, light):
             else:
                 mm = arr(mat, "model", "clp_label")
                 model_fit = float(scale) * mm @ c.T
-            if not close_arr(fitted, model_fit):
+            if not close_arr(fitted, model_fit, rt):
                 chained = _has_chain(spec)
                 linked = gen_scheme.resolve_linked(spec, ds["group"])
                 key = "fitted-ne-scale-matrix-clp" + (":chained-relations" if chained else "") + (":linked" if linked else ":unlinked")
@@ -195,7 +205,7 @@ def oracle(ck, spec, res, light):
             w = arr(r.weight, "model", "global")
             if "weighted_residual" not in r:
                 ck.violation("weighted-residual-missing", f"{label!r} has a weight but no weighted_residual", case)
-            elif not close_arr(arr(r.weighted_residual, "model", "global"), w * resid):
+            elif not close_arr(arr(r.weighted_residual, "model", "global"), w * resid, rt):
                 ck.violation("weighted-residual-ne-weight-residual", f"{label!r}: weighted_residual != weight x residual", case)
             if ds.get("weight") is not None and not np.array_equal(w, np.array(ds["weight"], dtype=float)):
                 ck.violation("weight-changed", f"{label!r}: reported weight differs from the dataset's weight", case)
@@ -236,7 +246,7 @@ def model_lines(spec, res):
     return gen_scheme.spec_lines(spec, weights_from_provider=weights) + ["results", "matrices"]
 
 
-def judge_matrices(ck, spec, res, tree):
+def judge_matrices(ck, spec, res, tree, approx=False):
     """`matrix` / `global_matrix` of every result dataset against `matrixAt` of the model (the M_i of
     fitted_eq_scale_matrix_clp): labels in order, one (model x clp) slice per global index, exact (regime E)"""
     for item in tree:
@@ -259,7 +269,7 @@ def judge_matrices(ck, spec, res, tree):
         else:
             got = np.broadcast_to(arr(r.matrix, "model", "clp_label"), want.shape)
             ck.count("matrix:index-independent")
-        if got.shape != want.shape or not np.array_equal(got, want):
+        if got.shape != want.shape or not (close_arr(got, want) if approx else np.array_equal(got, want)):
             return f"{label}: matrix differs from the model's matrixAt"
         ck.count("matrix:compared")
         if (item[3] == "none") != ("global_matrix" not in r):
@@ -273,15 +283,15 @@ def judge_matrices(ck, spec, res, tree):
                 return f"{label}: index dependent global matrix in the model"
             wantg = np.array([[float(Fraction(v)) for v in row] for row in item[3][1]], dtype=float)
             gotg = arr(r.global_matrix, "global", "global_clp_label")
-            if gotg.shape != wantg.shape or not np.array_equal(gotg, wantg):
+            if gotg.shape != wantg.shape or not (close_arr(gotg, wantg) if approx else np.array_equal(gotg, wantg)):
                 return f"{label}: global_matrix differs from the model"
             ck.count("matrix:global-compared")
     return None
 
 
 def judge(ck, b, ans):
-    spec, real = b["spec"], b["real"]
-    light = {"spec": spec}
+    spec, real = b.get("spec_eval", b["spec"]), b["real"]
+    light = {"spec": b["spec"]}
     if any(a.startswith("bad") for a in ans):
         raise core.HarnessError(f"model rejected a protocol line: {[l for l, a in zip(b['lines'], ans) if a.startswith('bad')][:2]}")
     if real["error"]:
@@ -296,7 +306,7 @@ def judge(ck, b, ans):
     if mat_ans is not None and not mat_ans.startswith("mat "):
         raise core.HarnessError(f"model answered {mat_ans[:80]!r} to 'matrices'")
     tree = core.parse_tree(res_ans[4:])[0]
-    bad = judge_matrices(ck, spec, res, core.parse_tree(mat_ans[4:])[0]) if mat_ans is not None else None
+    bad = judge_matrices(ck, spec, res, core.parse_tree(mat_ans[4:])[0], approx="spec_eval" in b) if mat_ans is not None else None
     if bad:
         tree = []
     for item in tree:
@@ -334,7 +344,7 @@ def judge(ck, b, ans):
                 bad = f"{label}: weighted_residual missing"
                 break
         for name, got, want in checks:
-            if not close_arr(got, want):
+            if not close_arr(got, want, spec_rtol(spec)):
                 bad = f"{label}: {name} differs from the model"
                 break
         if bad:
@@ -353,6 +363,7 @@ def check_spec(ck, spec, batch, twin=True):
     light = {"spec": spec}
     before = len(ck.violations) + len(ck.known_hits)
     nontrivial = False
+    spec_eval = None
     if real["error"]:
         ck.count("real-error:" + real["error"].split(":")[0])
         if real["error"] != "dof-zero" and not real["error"].startswith("AlignDatasetError"):
@@ -361,7 +372,16 @@ def check_spec(ck, spec, batch, twin=True):
                 kind = "group-label-collision"
             ck.violation("optimize-raises:" + kind, f"optimize raised {real['error']}", light)
     else:
-        oracle(ck, spec, real["result"], light)
+        if (spec.get("max_nfev") or 1) > 1:
+            # the optimiser moved: every identity and the model are evaluated at the optimised parameter values
+            spec_eval = copy.deepcopy(spec)
+            spec_eval["parameters"] = {p.label: float(p.value) for p in real["result"].optimized_parameters.all()}
+            ck.count("moved:" + ("yes" if spec_eval["parameters"] != {k: float(v) for k, v in spec["parameters"].items()} else "no"))
+            if not all(np.isfinite(v) for v in spec_eval["parameters"].values()) or not gen_scheme.full_rank_everywhere(spec_eval):
+                ck.count("moved:left-the-full-rank-domain")
+                ck.case(("spec", json.dumps(spec, sort_keys=True, default=str)), False)
+                return
+        oracle(ck, spec_eval or spec, real["result"], light)
         nontrivial = any(float(np.abs(r.residual.values).max()) > 1e-9 for r in real["result"].data.values())
         if twin and ck.rng.random() < 0.25:
             twin_spec = relabel(spec, {d["label"]: f"twin{i}x" for i, d in enumerate(spec["datasets"])})
@@ -377,7 +397,10 @@ def check_spec(ck, spec, batch, twin=True):
                             ck.violation("depends-on-dataset-label", f"{name} of dataset {d['label']!r} changes when the datasets are renamed", light)
     ck.case(("spec", json.dumps(spec, sort_keys=True, default=str)), nontrivial)
     failed = (len(ck.violations) + len(ck.known_hits)) > before
-    batch.append({"spec": spec, "real": real, "lines": model_lines(spec, real.get("result")), "oracle_failed": failed})
+    b = {"spec": spec, "real": real, "lines": model_lines(spec_eval or spec, real.get("result")), "oracle_failed": failed}
+    if spec_eval is not None:
+        b["spec_eval"] = spec_eval
+    batch.append(b)
 
 
 def relabel(spec, mapping):
@@ -429,6 +452,39 @@ def unsort_axes(spec, rng):
     return s if changed else None
 
 
+def storage_variant(spec, rng):
+    """the same scheme with its arrays stored differently (all valid xarray input): the weight variable in the other
+    dimension order than the data variable, the data as integer counts (int64 / int32) or single precision floats"""
+    s = copy.deepcopy(spec)
+    changed = False
+    for ds in s["datasets"]:
+        if ds.get("weight") is not None and rng.random() < 0.7:
+            ds["weight_dims"] = "swapped"
+            changed = True
+        if rng.random() < 0.6:
+            dt = rng.choice(["int64", "int32", "float32"])
+            a = np.array(ds["data"], dtype=float)
+            a = np.round(a) if dt.startswith("int") else a.astype(np.float32).astype(float)
+            ds["data"] = a.tolist()
+            ds["dtype"] = dt
+            changed = True
+    return s if changed else None
+
+
+def moved_spec(rng):
+    """a scheme whose clp relation / penalty / scale parameters are free and which is optimised for a few evaluations:
+    the result is reported at parameter values that differ from the initial ones"""
+    for _ in range(20):
+        spec = gen_scheme.rand_spec(rng)
+        special = sorted({r["parameter"] for r in spec.get("relations", [])} |
+                         {d["scale"] for d in spec["datasets"] if d.get("scale") is not None})
+        if special:
+            break
+    spec["vary"] = sorted(set(special) | {sorted(spec["parameters"])[0]})
+    spec["max_nfev"] = rng.choice([3, 4, 6])
+    return spec
+
+
 def c03_spec(rng, weird=False):
     kw = {}
     if weird:
@@ -460,6 +516,14 @@ def run(ck):
             if u is not None:
                 check_spec(ck, u, batch, twin=False)
                 ck.count("stream:unsorted-global-axes")
+        if i % 3 == 2:
+            v = storage_variant(spec, ck.rng)
+            if v is not None:
+                check_spec(ck, v, batch, twin=False)
+                ck.count("stream:storage-variants")
+        if i % 5 == 4:
+            check_spec(ck, moved_spec(ck.rng), batch, twin=False)
+            ck.count("stream:moved-parameters")
         if i < 2:
             ck.sample({"spec": spec})
         if len(batch) >= 40:
@@ -473,6 +537,10 @@ def search(ck):
         spec = c03_spec(ck.rng, i % 3 == 0)
         if i % 4 == 1:
             spec = unsort_axes(spec, ck.rng) or spec
+        elif i % 4 == 2:
+            spec = storage_variant(spec, ck.rng) or spec
+        elif i % 4 == 3:
+            spec = moved_spec(ck.rng)
         check_spec(ck, spec, batch, twin=False)
         if len(batch) >= 40:
             flush(ck, batch)
